@@ -364,7 +364,7 @@ func gen(w *kit.Out, r *kit.Rand, tier string) {
 	rr := r.Fork()
 	rm := r.Fork()
 	ps := pools(r.Fork())
-	ncases, maxops := 420, 60
+	ncases, maxops := 320, 60
 	if tier == "thorough" {
 		ncases, maxops = 260, 400
 	}
